@@ -54,5 +54,13 @@ def load(name):
         spec = importlib.util.spec_from_file_location('verif_mech_' + name, path)
         mod = importlib.util.module_from_spec(spec)
         spec.loader.exec_module(mod)
+    # seam: cdp_rho is a pure function of (eps, delta) costing 0.2 s (10^6 loop iterations); memoise it per process
+    if name not in ('cdp2adp',) and hasattr(mod, 'cdp_rho') and not hasattr(mod.cdp_rho, 'cache_info'):
+        import functools
+        mod.cdp_rho = functools.lru_cache(maxsize=None)(mod.cdp_rho)
+    mm = sys.modules.get('mechanisms.mechanism')
+    if mm is not None and hasattr(mm, 'cdp_rho') and not hasattr(mm.cdp_rho, 'cache_info'):
+        import functools
+        mm.cdp_rho = functools.lru_cache(maxsize=None)(mm.cdp_rho)
     _CACHE[name] = mod
     return mod
